@@ -57,17 +57,18 @@ def render_file(f):
         L.append(line)
     # module-level and function-level sites first, in sid order
     for sid, s in sites.items():
+        nm = s.get("name", sid)
         if s["place"] == "module":
-            L.append(f"{sid.upper()} = {_snap(s['arg'])}")
+            L.append(f"{nm.upper()} = {_snap(s['arg'])}")
             order.append(sid)
         elif s["place"] == "func":
             L.append("")
-            L.append(f"def get_{sid}():")
+            L.append(f"def get_{nm}():")
             L.append(f"    return {_snap(s['arg'])}")
             L.append("")
             order.append(sid)
         elif s["place"] == "lam":
-            L.append(f"get_{sid} = lambda: {_snap(s['arg'])}")
+            L.append(f"get_{nm} = lambda: {_snap(s['arg'])}")
             order.append(sid)
     L.append("")
 
@@ -75,10 +76,11 @@ def render_file(f):
 
     def getter(sid):
         s = sites[sid]
+        nm = s.get("name", sid)
         if s["place"] == "module":
-            return sid.upper()
+            return nm.upper()
         if s["place"] in ("func", "lam"):
-            return f"get_{sid}()"
+            return f"get_{nm}()"
         if sid in used_direct:
             raise ValueError(f"direct site {sid} used by more than one textual event")
         used_direct.add(sid)
@@ -89,6 +91,8 @@ def render_file(f):
         t = e["t"]
         if t == "cmp":
             s = sites[e["site"]]
+            if e.get("setg") is not None:
+                L.append(f"{ind}set_g({e['setg']})")
             key = V.expr(e["key"]) if e.get("key") is not None else None
             loop = e.get("loop") or ("vals" in e and len(e["vals"]) != 1)
             if "var" in e:
@@ -263,7 +267,8 @@ def eval_arg(arg_text, extra_ns=None):
     ns["snapshot"] = lambda *a: a[0] if a else None
     if extra_ns:
         ns.update(extra_ns)
-    return eval(compile(ast.parse(arg_text.strip(), mode="eval"), "<arg>", "eval"), ns)
+    # the text sits inside the parentheses of snapshot(...): it may span lines without own parentheses
+    return eval(compile(ast.parse("(\n" + arg_text.strip() + "\n)", mode="eval"), "<arg>", "eval"), ns)
 
 
 # ---------------------------------------------------------------------- hand-rendered previous content
